@@ -457,7 +457,10 @@ func (i *Domain) backwardStamp(
 	}
 
 	totalTraversed := domainLen
-	if endOffset >= domainLen {
+	// endOffset counts samples back from the END of the domain (1 = last sample,
+	// domainLen = first sample), so the target only lies in an earlier domain when it
+	// exceeds domainLen.
+	if endOffset > domainLen {
 		for {
 			if !iter.Prev() {
 				if continuous {
@@ -490,6 +493,12 @@ func (i *Domain) backwardStamp(
 
 	upperTSByteOffset := iter.Size() - byteSize(endOffset)
 	lowerTSByteOffset := iter.Size() - byteSize(endOffset+startApprox.Span())
+	if lowerTSByteOffset < 0 && iter.Position() == 0 {
+		// The target is the first sample of the first domain and the reference was
+		// inexact: the lower bound lies before all stored data.
+		upperTS, readErr := newStampReader()(r, upperTSByteOffset)
+		return Between(telem.TimeStampMin, upperTS), readErr
+	}
 	return i.approximateStamp(
 		ctx,
 		r,
